@@ -128,7 +128,8 @@ func occMain(spec string) {
 	if err != nil {
 		os.Exit(65)
 	}
-	fmt.Fprintf(f, "%d\n", syscall.Getpgrp())
+	// one line: the device's pid and its process group (the wrapping shell's pid when the command runs through a shell)
+	fmt.Fprintf(f, "%d %d\n", os.Getpid(), syscall.Getpgrp())
 	f.Close()
 	n := 1
 	lis, err := net.Listen("tcp", "127.0.0.1:"+strconv.Itoa(port))
